@@ -308,6 +308,28 @@ def hooks_available():
 
 
 # -----------------------------------------------------------------------------------------
+
+def replay_correspondence(obj):
+    """replay of a `no-failing-input-found` / correspondence file: every recorded (request, real answer) pair is put to the model again.
+    Returns 1 if a pair still disagrees (or the file names broken obligations without pairs), 0 if all recorded pairs agree now."""
+    items = obj.get("correspondence") or ([obj] if obj.get("kind") == "correspondence" else [])
+    print("kind:", obj.get("kind"))
+    for b in obj.get("broken_obligations") or []:
+        print("broken obligation:", b.get("name"), "-", str(b.get("detail"))[:300])
+    still = 0
+    for it in items:
+        r = it.get("replay") or {}
+        print("suite:", it.get("suite"), "-", str(it.get("what"))[:300])
+        if isinstance(r.get("request"), str) and isinstance(r.get("real"), str):
+            now = drv_batch([r["request"]])[0]
+            agree = now == r["real"] or now.split(" atomic=", 1)[-1] == r["real"]
+            print("  model now:", now[:300])
+            print("  real then:", r["real"][:300], "->", "agree" if agree else "DIFFER")
+            still += 0 if agree else 1
+        if r.get("prql"):
+            print("  program:", r["prql"][-300:].replace("\n", " | "))
+    return 1 if (still or (obj.get("broken_obligations") and not items)) else 0
+
 # findings, evidence, verdict
 # -----------------------------------------------------------------------------------------
 
